@@ -158,6 +158,13 @@ def special_bodies(rng):
                 while len(body) % 8: body.append(0)
                 h = bytearray(m.marshal()); h[4:8] = len(body).to_bytes(4, 'little' if le else 'big')
                 out.append(("sig-as-variant-type-%s" % sg.decode(), bytes(h) + bytes(body)))
+        # a variant whose contained type has a long signature (length byte at and beyond 128), with values after it
+        for nmem in (126, 127, 128, 253):
+            m = wiregen.Message(); m.le = le; m.mtype = 2
+            sty = ('r', [('b', 'i')] * nmem)
+            m.body_types = [('b', 's'), ('v',), ('b', 'i'), ('b', 's')]; m.body = [b"A" * 300, (sty, [1000003] * nmem), 7, b"tail"]
+            m.fields = [(5, ('b', 'u'), 9), (8, ('b', 'g'), b"svis")]
+            out.append(("variant-with-%d-byte-signature" % (nmem + 2), m.marshal()))
         # names at 255/256
         for n in (254, 255, 256):
             m = wiregen.Message(); m.le = le; m.mtype = 1
